@@ -404,6 +404,15 @@ mod tests {
     }
 
     #[test]
+    fn include_without_path() {
+        // used to panic when looking for the path token
+        for fea in ["include(", "include", "include <a "] {
+            let (_, errs) = crate::parse::parse_string(fea);
+            assert!(errs.has_errors(), "{fea}");
+        }
+    }
+
+    #[test]
     fn skip_cycle_in_build() {
         let parse = ParseContext::parse(
             "a".into(),
